@@ -539,6 +539,59 @@ theorem frac_volumes (ρi ρw ρ vlw lw : ℝ) (hρi : ρi ≠ 0) :
   · intro h; simp only [fracVolumesVLW] at h ⊢; exact div_mul_cancel₀ _ h
   · intro h; simp only [fracVolumeLW]; exact div_mul_cancel₀ _ h
 
+/-- **clamp_below_one**: the rounding clamp never touches a fractional volume of at most one - a crust at 99.5 % of the density of
+    ice keeps its 0.5 % of air -/
+theorem clamp_below_one (f : ℝ) (h : f ≤ 1) : clampFrac f = f := by
+  unfold clampFrac
+  rw [if_neg]
+  intro hh
+  exact absurd hh.1 (not_lt.mpr h)
+
+/-- **clamp_spec**: the clamp returns either its argument or (for arguments strictly between 1 and 1.01) exactly one -/
+theorem clamp_spec (f : ℝ) : (clampFrac f = f ∧ ¬ (1 < f ∧ f < 1.01)) ∨ (clampFrac f = 1 ∧ 1 < f ∧ f < 1.01) := by
+  unfold clampFrac
+  by_cases h : 1 < f ∧ f < 1.01
+  · right; rw [if_pos h]; exact ⟨rfl, h⟩
+  · left; rw [if_neg h]; exact ⟨rfl, h⟩
+
+/-- **compute_frac_volumes_range**: whatever `compute_frac_volumes` returns lies in `[0, 1]²`, the returned fractional volume is the
+    mass-balance value unless that value exceeded one by less than 1 %, and a mass-balance value of at most one is returned unchanged -/
+theorem compute_frac_volumes_range (f lw : ℝ) (r : ℝ × ℝ) (h : computeFracVolumes f lw = some r) :
+    0 ≤ r.1 ∧ r.1 ≤ 1 ∧ 0 ≤ r.2 ∧ r.2 ≤ 1 ∧ r.2 = lw ∧ (f ≤ 1 → r.1 = f) ∧ (r.1 = f ∨ (r.1 = 1 ∧ 1 < f ∧ f < 1.01)) := by
+  unfold computeFracVolumes at h
+  simp only at h
+  split at h
+  · rename_i h1
+    split at h
+    · rename_i h2
+      cases h
+      refine ⟨h1.1, h1.2, h2.1, h2.2, rfl, fun hf => clamp_below_one f hf, ?_⟩
+      rcases clamp_spec f with ⟨e, _⟩ | ⟨e, hh⟩
+      · left; exact e
+      · right; exact ⟨e, hh⟩
+    · cases h
+  · cases h
+
+/-- a value above the clamp window, or negative, is refused -/
+theorem compute_frac_volumes_refuses (f lw : ℝ) (h : 1.01 ≤ f ∨ f < 0) : computeFracVolumes f lw = none := by
+  unfold computeFracVolumes clampFrac
+  simp only
+  rcases h with h | h
+  · have : ¬ (1 < f ∧ f < 1.01) := fun hh => absurd hh.2 (not_lt.mpr h)
+    rw [if_neg this, if_neg]
+    intro hh
+    have : (1.01 : ℝ) ≤ 1 := le_trans h hh.2
+    norm_num at this
+  · have : ¬ (1 < f ∧ f < 1.01) := fun hh => by linarith [hh.1]
+    rw [if_neg this, if_neg]
+    intro hh
+    linarith [hh.1]
+
+example : computeFracVolumes (0.995 : ℝ) 0 = some (0.995, 0) := by
+  unfold computeFracVolumes clampFrac; norm_num
+example : computeFracVolumes (1.0003 : ℝ) 0 = some (1, 0) := by
+  unfold computeFracVolumes clampFrac; norm_num
+
 /-! ### non-vacuity -/
 example : thicknessFromZ [3, 2, 1] = .ok [1, 1, 1] ∧ thicknessFromZ [-1, -2, -4] = .ok [1, 1, 2] ∧
     thicknessFromZ [1, 2, 4] = .ok [1, 1, 2] ∧ thicknessFromZ [1, 3, 2] = .error .smrt ∧
